@@ -16,7 +16,7 @@ cd $V
 rc=0
 for p in "$@"; do
   echo "=== $p against $(basename $patch)"
-  ./check $p 2>&1 | grep -E "^VIOLATION|^KNOWN|^$p:" | cut -c1-400
+  ./check $p > /tmp/seedrun/$id.log 2>&1; grep -E "^VIOLATION|^KNOWN|^$p:" /tmp/seedrun/$id.log | cut -c1-400; grep -q "^$p:" /tmp/seedrun/$id.log || tail -15 /tmp/seedrun/$id.log
   cp -f $V/replays/$p-*.json /tmp/seedrun/ 2>/dev/null
 done
 cd /
